@@ -675,6 +675,22 @@ def run(chk):
                 chk.count("distributions_nonconverged")
                 continue
             raise
+        # the degree listing (radians=False) is the same geometry: every angular column is the radian column in degrees, every other
+        # geometric column is unchanged
+        try:
+            ddeg = sc.distributions(radians=False)["a"]
+        except Exception as e:
+            ddeg = None
+            if type(e).__name__ != "SolverNotConvergedError":
+                chk.violation("distributions-degrees-raises", dict(kind="geometry", aircraft=ac, error=repr(e)))
+        for seg in (a.segments if ddeg is not None else []):
+            dr, dg = d[seg.name], ddeg[seg.name]
+            for key in ("twist", "dihedral", "sweep", "aero_sweep", "section_aL0", "alpha", "delta_flap"):
+                if key in dr and not np.allclose(np.array(dg[key], dtype=float), np.degrees(np.array(dr[key], dtype=float)), rtol=1e-9, atol=1e-9):
+                    chk.violation("distributions-degrees:" + key, dict(kind="geometry", aircraft=ac, segment=seg.name, column=key, radians=dr[key], degrees=dg[key]))
+            for key in ("span_frac", "cpx", "cpy", "cpz", "chord", "swept_chord", "area"):
+                if key in dr and not np.allclose(np.array(dg[key], dtype=float), np.array(dr[key], dtype=float), rtol=1e-12, atol=0):
+                    chk.violation("distributions-degrees:" + key, dict(kind="geometry", aircraft=ac, segment=seg.name, column=key, radians=dr[key], degrees=dg[key]))
         for seg in a.segments:
             dd = d[seg.name]
             if not (np.allclose(dd["span_frac"], seg.cp_span_locs) and np.allclose(dd["area"], seg.dS) and np.allclose(dd["twist"], seg.twist_cp)
